@@ -314,6 +314,27 @@ def run(ctx):
     if not written and not statics:
         ctx.ok("R14.4", parse, "no-parser-or-static-state",
                "no member of parser and no static-storage object is written on the parse path (%d functions scanned)" % len(full_reach), parse)
+    # ---- R14.4: the argument strings are read before anything of the previous call is released. argv may point INTO the previous
+    # result (`first.get("output").c_str()` forwarded to the next call): the reset pass frees those strings
+    ctx.rule("R14.4", "in parse(argc, argv) no read of argv is reachable after the reset pass (the arguments are copied into tokens first, then the previous values are released)")
+    from .common import PARSE_ARGV
+    pa = prog.fn(PARSE_ARGV)
+    if ctx.anchor("R14.4", PARSE_ARGV, pa is not None and pa.has_cfg):
+        argv = pa.params[1]["name"] if len(pa.params) > 1 else "argv"
+        reads_argv = lambda e: isinstance(e.get("expr"), dict) and any(isinstance(y, dict) and y.get("k") == "ref" and y.get("decl") == "param:" + argv for y in walk(e["expr"]))
+        resets = cfg.find_elems(pa, is_prep)
+        nreads = len(cfg.find_elems(pa, reads_argv))
+        ctx.need("R14.4", "reads of argv in parse(argc, argv)", nreads, 1)
+        bad4 = None
+        for (b0, i0, e0) in resets:
+            if reads_argv(e0):
+                continue  # the call that hands the finished tokens on
+            p4 = cfg.reaches_without(pa, (b0, i0), reads_argv, lambda e: False)
+            if p4 is not None:
+                bad4 = (e0, p4)
+        ctx.check(bad4 is None, "R14.4", pa, "arguments-read-before-reset",
+                  "parse(argc, argv) runs the reset pass (line %s) and reads argv afterwards (B%s): argument strings that point into the previous result of this parser are freed before they are copied - "
+                  "the outcome depends on the earlier call" % ((bad4[0].get("ln"), "->B".join(map(str, bad4[1]))) if bad4 else ("-", "-")), pa, why_ok="argv is consumed before any reset")
     ctx.assume("an earlier `arguments` object aliases option state by design (it holds pointers); not covered")
 
 
